@@ -565,8 +565,78 @@ def run_big(sc) -> RunResult:
                     res.violate("C01/model-violates-constraints", f"all variables pinned to {pin} but sol={[v.sol for v in vs]} [z3 big]")
             except Exception as e:
                 res.violate("C01/unexpected-exception", f"big program, pinned: find_answer raised {type(e).__name__}: {str(e)[:200]}")
+        # (3) wide nodes on their own: the constraint that holds a node over more than 8 literal operands is posted
+        # alone and evaluated on assignments that are one-hot / one-cold in the node's OPERAND space at the far
+        # positions (last, 13th, 9th), so that an operand that is dropped, duplicated or misplaced decides the verdict
+        n_wide = 0
+        for j, c in enumerate(cs):
+            if n_wide >= 3:
+                break
+            for items in _wide_literal_nodes(c):
+                n_wide += 1
+                res.hit("scenario:wide_node_evaluated_alone")
+                ks = sorted({len(items) - 1, min(12, len(items) - 1), 8})
+                for k in ks:
+                    for hot in (True, False):
+                        pin = [False if d["t"] == "b" else d["lo"] for d in decls]
+                        for jj, (vid, positive) in enumerate(items):
+                            truth = (jj == k) == hot  # operand jj is true exactly at k (hot) / false exactly at k (cold)
+                            if decls[vid]["t"] == "b":
+                                pin[vid] = truth if positive else not truth
+                            else:
+                                pin[vid] = decls[vid]["hi"] if truth else decls[vid]["lo"]
+                        want = bool(each[j](tuple(pin)))
+                        try:
+                            z3cap["calls"] = 0
+                            s1 = cspuz.Solver()
+                            vs1 = [s1.bool_var() if d["t"] == "b" else s1.int_var(d["lo"], d["hi"]) for d in decls]
+                            s1.ensure(refsem.Builder(vs1).build(c))
+                            for i, v in enumerate(pin):
+                                s1.ensure(vs1[i] if v is True else ~vs1[i] if v is False else vs1[i] == v)
+                            r = s1.find_answer(backend=backend)
+                            res.steps += 1
+                            res.log("big", "wide", j, k, hot, r, want)
+                            if r is not want:
+                                res.violate(
+                                    "C01/wrong-sat-verdict",
+                                    f"constraint #{j} posted alone, all variables pinned so that operand {k} of its {len(items)}-operand node is the only {'true' if hot else 'false'} one: find_answer returned {r!r}, the constraint evaluates to {want} [z3 big]",
+                                )
+                        except Exception as e:
+                            res.violate("C01/unexpected-exception", f"big program, wide node alone: find_answer raised {type(e).__name__}: {str(e)[:200]}")
+                break
     res.states.add(hashlib.sha256(repr((decls, cs)).encode()).hexdigest()[:16])
     return res
+
+
+def _wide_literal_nodes(c):
+    """Operand lists [(variable id, positive?)] of the nodes of c that have more than 8 operands, all of them literals
+    over distinct variables (b_i, not b_i, i_i)."""
+    out = []
+
+    def lit(x):
+        if isinstance(x, list) and x and x[0] in ("b", "i"):
+            return (x[1], True)
+        if isinstance(x, list) and x and x[0] == "not" and isinstance(x[1], list) and x[1][0] == "b":
+            return (x[1][1], False)
+        return None
+
+    def walk(n):
+        if not (isinstance(n, list) and n and isinstance(n[0], str)):
+            return
+        if n[0] in ("orn", "andn", "fold_or", "fold_and", "count", "nadd") and isinstance(n[1], list) and len(n[1]) > 8:
+            lits = [lit(x) for x in n[1]]
+            if all(l is not None for l in lits) and len({l[0] for l in lits}) == len(lits):
+                out.append(lits)
+        for x in n[1:]:
+            if isinstance(x, list):
+                if x and isinstance(x[0], list):
+                    for y in x:
+                        walk(y)
+                else:
+                    walk(x)
+
+    walk(c)
+    return out
 
 
 def _check_assignment(decls, sols):
